@@ -146,6 +146,23 @@ def g_prefix(rng, dic, V):
     return 4, 0, 3, tr, "prefix-sharing"
 
 
+def g_nullmerge(rng, dic, V):
+    """the same word leads to two states that are joined to a third one by null arcs, and one of the two also has word arcs of
+    its own whose first phones overlap with those reachable through the null arc: the history entries of the two states go
+    through fsg_history_entry_add for the SAME (target state, lc) list in fsg_search_null_prop (domination among null-arc
+    entries), and the dominated predecessor must keep its own right contexts for its own word arcs"""
+    w0 = rng.choice(V)
+    w1 = rng.choice(V)
+    same = [w for w in V if dic[w][0][1][:1] == dic[w1][0][1][:1]] or [w1]
+    w2 = rng.choice(same)
+    pa, pb = rng.choice([("0.6", "0.4"), ("0.4", "0.6"), ("0.5", "0.5")])
+    tr = [(0, 1, pa, w0), (0, 2, pb, w0), (1, 3, rng.choice(PROBS), None), (2, 3, rng.choice(PROBS), None),
+          (2, 4, rng.choice(PROBS), w1), (3, 4, rng.choice(PROBS), w2)]
+    if rng.chance(0.5):
+        tr.append((1, 4, rng.choice(PROBS), rng.choice(same)))
+    return 5, 0, 4, tr, "null-merge"
+
+
 def g_random(rng, dic, V):
     n = rng.range(2, 5)
     tr = []
@@ -161,7 +178,7 @@ def g_random(rng, dic, V):
     return n, 0, n - 1, tr, "random-graph"
 
 
-SHAPES = [(g_linear, 2), (g_branch, 4), (g_short, 3), (g_loop, 3), (g_null, 3), (g_prefix, 2), (g_random, 4)]
+SHAPES = [(g_linear, 2), (g_branch, 4), (g_short, 3), (g_loop, 3), (g_null, 3), (g_prefix, 2), (g_random, 4), (g_nullmerge, 2)]
 
 
 def min_phones(dic, n, start, final, tr):
@@ -211,8 +228,16 @@ def gen_case(rng, dic, vocab, cid, tier, beams=None, frames=None, lang="en-us"):
         audio = ("file", apath, rng.below(max(1, total - ns)), ns)
     else:
         audio = ("noise", rng.below(1 << 30), nfr * 160 + 250, rng.choice([30, 300, 3000]))
+    # result queries during the utterance (decoder_hyp() after some frame and/or after the last frame but before the search is
+    # finished): the FINAL result must not depend on them
+    probes = []
+    if rng.chance(0.5):
+        if rng.chance(0.5):
+            probes.append(rng.below(max(1, nfr)))
+        if rng.chance(0.8) or not probes:
+            probes.append(-1)
     return {"id": cid, "lang": lang, "shape": shape, "beams": beams, "cfg": cfg, "n_state": n, "start": s, "final": f,
-            "trans": [list(t) for t in tr], "audio": list(audio)}
+            "trans": [list(t) for t in tr], "audio": list(audio), "probes": probes}
 
 
 def case_text(case):
@@ -226,6 +251,10 @@ def case_text(case):
     if a[0] == "file":
         a[1] = str(vlib.REPO / a[1]) if not os.path.isabs(a[1]) else a[1]
     out.append("audio " + " ".join(str(x) for x in a))
+    for p in case.get("probes", []):
+        out.append(f"probe {p}")
+    if case.get("detail") is not None:
+        out.append(f"detail {case['detail']}")
     out.append("run")
     return "\n".join(out) + "\n"
 
@@ -254,14 +283,54 @@ def parse_harness(out):
             cur["score"] = None if w[2] == "none" else int(w[2])
             cur["exit_frame"] = int(w[3])
             cur["hyp"] = w[4]
+        elif w[0] == "XN":
+            cur.setdefault("lexnodes", []).append(" ".join(w[1:]))
         elif w[0] == "A":
             cur.setdefault("arcs", []).append((int(w[1]), int(w[2]), int(w[4])))
         elif w[0] == "W":
             cur.setdefault("words", {})[int(w[1])] = w[2]
         elif w[0] == "C":
             cur.setdefault("phones", {})[int(w[1])] = w[2]
+        elif w[0] == "Y":
+            cur.setdefault("Y", []).append(" ".join(w[1:]))
+        elif w[0] == "PH":
+            cur.setdefault("partial", []).append(w[1:])
+        elif w[0] == "YD":
+            cur.setdefault("detail", []).append(" ".join(w[1:]))
         elif w[0] == "end":
             cur["done"] = True
+    return res
+
+
+def parse_search_driver(out):
+    """output of `ssdriver c02s`: per case the fingerprint lines of the model's unpruned search and its result"""
+    res = {}
+    for l in out.split("\n"):
+        w = l.split()
+        if len(w) < 3:
+            continue
+        if w[0] == "Y":
+            res.setdefault(w[1], {"Y": []})["Y"].append(" ".join(w[2:]))
+        elif w[0] == "YB":
+            res.setdefault(w[1], {"Y": []}).setdefault("YB", []).append(" ".join(w[2:]))
+        elif w[0] == "PH":
+            res.setdefault(w[1], {"Y": []}).setdefault("partial", []).append(w[2:4])
+        elif w[0] == "YM":
+            res.setdefault(w[1], {"Y": []}).setdefault("detail", []).append(" ".join(w[2:]))
+        elif w[0] == "case":
+            r = res.setdefault(w[1], {"Y": []})
+            if w[2] == "error":
+                r["error"] = " ".join(w[3:])
+                continue
+            d = {w[i]: w[i + 1] for i in range(2, len(w) - 1, 2)}
+            r.update({"score": None if d["search"] == "none" else int(d["search"]), "exit_frame": int(d["exitframe"]),
+                      "tree": None if d["tree"] in ("none", "illformed") else int(d["tree"]), "tree_raw": d["tree"],
+                      "pnodes": int(d["pnodes"]), "entries": int(d["entries"]), "data": d["data"] == "true",
+                      "chains": d["chains"] == "true", "treeedges": int(d["treeedges"]),
+                      "cover": d.get("cover"), "emagree": d.get("emagree"),
+                      "flat": None if d.get("flat", "none") == "none" else int(d["flat"]),
+                      "beam_score": None if d.get("beamsearch", "none") == "none" else int(d["beamsearch"]),
+                      "beam_exit_frame": int(d.get("beamexit", "-2")), "tablesagree": d.get("tablesagree") == "true"})
     return res
 
 
@@ -288,15 +357,15 @@ def parse_driver(out):
     return res
 
 
-def run_driver_retry(text, timeout):
+def run_driver_retry(text, timeout, sub="c02"):
     """the driver binary is briefly absent while another check relinks it"""
     import time
     for attempt in range(30):
         try:
-            return vlib.run_driver("c02", text, timeout=timeout)
+            return vlib.run_driver(sub, text, timeout=timeout)
         except (FileNotFoundError, PermissionError, OSError):
             time.sleep(2)
-    return vlib.run_driver("c02", text, timeout=timeout)
+    return vlib.run_driver(sub, text, timeout=timeout)
 
 
 def run_cases(binp, dictfile, cases, timeout=1200):
@@ -307,7 +376,15 @@ def run_cases(binp, dictfile, cases, timeout=1200):
     df = dictfile[lang] if isinstance(dictfile, dict) else dictfile
     rc, out, err = vlib.run_bin(binp, [str(vlib.REPO / "model" / lang), str(df)], stdin_text=text, timeout=timeout)
     rc2, mout, merr = run_driver_retry(out, timeout)
-    return (rc, parse_harness(out), err), (rc2, parse_driver(mout), merr)
+    ms = parse_driver(mout)
+    # the scoring model of the unpruned token-passing search, run on the same dump (real lextree, recorded senone scores)
+    rc3, sout, serr = run_driver_retry(out, timeout, sub="c02s")
+    for cid, sr in parse_search_driver(sout).items():
+        if cid in ms:
+            ms[cid]["search"] = sr
+    if rc3 != 0:
+        rc2, merr = rc3, merr + serr
+    return (rc, parse_harness(out), err), (rc2, ms, merr)
 
 
 def describe_key(h, key):
@@ -330,13 +407,91 @@ def verdict(case, h, m):
     """score verdict, then the structural correspondence with the real lextree: a mismatch there is reported as
     `lextree-mismatch` unless the score already violates the property (then the difference is attached)"""
     kind, detail = verdict_score(case, h, m)
-    if kind in ("harness-error", "model-error") or m.get("lextree", True):
+    if kind in ("harness-error", "model-error"):
+        return kind, detail
+    if m.get("lextree", True):
+        if kind.startswith("ok") or kind == "finding-partial":
+            bad = search_tie(h, m)
+            if bad:
+                return "search-mismatch", bad
         return kind, detail
     diff = (f"real lextree has [{describe_key(h, m['lexonly'])}]; flat network of the model has "
             f"[{describe_key(h, m['flatonly'])}]")
     if kind.startswith("violation"):
         return kind, f"{detail}; lextree differs from the model: {diff}"
     return "lextree-mismatch", diff
+
+
+def in_regime(m):
+    """the proved no-pruning condition plus the no-underflow / skip-consistency hypotheses (see verdict_score)"""
+    floor = m["minval"] is None or m["minval"] > -536870912 + 33023
+    return bool(m.get("regime")) and m["skipcons"] and floor
+
+
+def search_tie(h, m):
+    """token-passing correspondence in the no-pruning regime: the model's unpruned scoring search (SearchScore.searchStart /
+    searchFrame / findExit, run by `ssdriver c02s` on the dumped real lextree and the recorded senone scores) must reproduce, frame by
+    frame, what the real search held (bestscore, number of active HMMs, every active HMM's state and exit scores, the word-exit and
+    the null-arc history entries per (state, lc, right-context phone)) and the result fsg_search_find_exit read.  Returns None when it
+    agrees or does not apply, else a description of the first difference."""
+    sr = m.get("search")
+    if sr is None:
+        return None
+    if "error" in sr:
+        return {"what": "the search model could not run on the dump", "error": sr["error"]}
+    # structural, independent of beams: the model's flat network covers the real lextree read as a network (the two decidable
+    # hypotheses coverB / emAgreeB of C02_unpruned_search_is_dp_partial, evaluated by the driver with the model's own definitions)
+    if sr.get("cover") != "true" or sr.get("emagree") != "true":
+        return {"what": "cover certificate: the flat network of the model does not cover the real lextree read as a network "
+                        "(hypotheses of C02_unpruned_search_is_dp_partial)", "coverB": sr.get("cover"), "emAgreeB": sr.get("emagree")}
+    if sr.get("flat") != m["opt"]:
+        return {"what": "the two drivers disagree on the optimum of the flat network", "c02s": sr.get("flat"), "c02": m["opt"]}
+    if not (sr.get("data") and sr.get("chains")):
+        return {"what": "dumped lextree unusable", "data": sr.get("data"), "chains": sr.get("chains")}
+    # ANY beams: the scoring model WITH the beam tests (searchStartBeam / searchFrameBeam, run with the beams the real search holds)
+    # must reproduce every frame of the real, pruned search and its result (needs only no underflow to WORST_SCORE and
+    # skip-consistent matrices, the hypotheses under which hmm_vit_eval is the max-plus step)
+    floor = m["minval"] is None or m["minval"] > -536870912 + 33023
+    if floor and m["skipcons"]:
+        a, b = h.get("Y", []), sr.get("YB", [])
+        for k in range(max(len(a), len(b))):
+            x, y = (a[k] if k < len(a) else None), (b[k] if k < len(b) else None)
+            if x != y:
+                return {"what": "first frame in which the real search and the scoring model run WITH the search's beams differ "
+                                "(frame, bestscore, #active HMMs, hash of HMM scores, hash of word-exit entries, hash of null-arc entries)",
+                        "real_search": x, "model_with_beams": y, "frame_index": k - 1}
+        if sr.get("beam_score") != h["score"] or (h["score"] is not None and sr.get("beam_exit_frame") != h["exit_frame"]):
+            return {"what": "fsg_search_find_exit vs model findExit on the pruned history", "real_search": [h["score"], h["exit_frame"]],
+                    "model_with_beams": [sr.get("beam_score"), sr.get("beam_exit_frame")]}
+        # partial results asked for during the utterance (fsg_search_hyp before fsg_search_finish = find_exit with final = FALSE)
+        pa, pb = [x[:2] for x in h.get("partial", [])], sr.get("partial", [])
+        if pa != pb:
+            return {"what": "partial results (decoder_hyp before the search was finished): [frame, score] pairs", "real_search": pa,
+                    "model_with_beams": pb}
+        # C02_search_with_beams_is_dp_partial: when the pruned model's history table equals the unpruned model's (decidable, evaluated by
+        # the driver on its two runs) the result must be the optimum of the flat network, whatever the `regime` flag says
+        if sr.get("tablesagree"):
+            if m["opt"] is not None and (h["score"] != m["opt"] or h["exit_frame"] != h["T"] - 1):
+                return {"what": "pruning removed nothing from the history table (pruned model table = unpruned model table) but the result is "
+                                "not the optimum of the flat network", "real_search": [h["score"], h["exit_frame"]], "optimum": m["opt"]}
+            if m["opt"] is None and sr.get("beam_exit_frame") == h["T"] - 1 and h["score"] is not None:
+                return {"what": "no alignment exists but a result is reported from the last frame", "real_search": [h["score"], h["exit_frame"]]}
+    if not in_regime(m):
+        return None
+    a, b = h.get("Y", []), sr["Y"]
+    for k in range(max(len(a), len(b))):
+        x, y = (a[k] if k < len(a) else None), (b[k] if k < len(b) else None)
+        if x != y:
+            return {"what": "first frame in which the real search and the unpruned scoring model differ "
+                            "(frame, bestscore, #active HMMs, hash of HMM scores, hash of word-exit entries, hash of null-arc entries)",
+                    "real_search": x, "model": y, "frame_index": k - 1}
+    if sr["score"] != h["score"] or (h["score"] is not None and sr["exit_frame"] != h["exit_frame"]):
+        return {"what": "fsg_search_find_exit vs model findExit", "real_search": [h["score"], h["exit_frame"]],
+                "model": [sr["score"], sr["exit_frame"]]}
+    if h["exit_frame"] == h["T"] - 1 and sr["tree"] != m["opt"]:
+        return {"what": "optimum of the lextree network differs from the optimum of the flat network",
+                "lextree_network": sr["tree_raw"], "flat_network": m["opt"]}
+    return None
 
 
 def verdict_score(case, h, m):
@@ -433,7 +588,7 @@ def report(c, binp, dictfile, dic, vocab, case, kind, detail, finding_key=None):
     (rc, hs, err), (rc2, ms, _) = run_cases(binp, dictfile, [small])
     h, m = hs.get(small["id"]), ms.get(small["id"])
     k2, d2 = verdict(small, h, m)
-    lex = kind == "lextree-mismatch"
+    lex = kind in ("lextree-mismatch", "search-mismatch")
     if k2 != kind and not (lex and k2.startswith("violation")):
         small, (h, m) = case, (None, None)
         (rc, hs, err), (rc2, ms, _) = run_cases(binp, dictfile, [small])
@@ -455,9 +610,24 @@ def report(c, binp, dictfile, dic, vocab, case, kind, detail, finding_key=None):
                 break
     if lex:
         kind = k2 if k2.startswith("violation") else kind
+    state_diff = None
+    if isinstance(d2, dict) and "frame_index" in d2:
+        # the full state behind the fingerprints of the first differing frame: active HMMs `H pnode s0 s1 s2 out` and the history entries
+        # made in that frame `E is_null_arc dst_state lc score right_contexts`, real search vs the scoring model run with the search's beams
+        try:
+            (_, hs4, _), (_, ms4, _) = run_cases(binp, dictfile, [dict(small, detail=d2["frame_index"])])
+            ra = set(hs4[small["id"]].get("detail", []))
+            mo = set((ms4[small["id"]].get("search") or {}).get("detail", []))
+            nodes = [l for l in (hs4[small["id"]].get("lexnodes") or [])]
+            state_diff = {"frame": d2["frame_index"], "only_in_real_search": sorted(ra - mo)[:12], "only_in_model": sorted(mo - ra)[:12],
+                          "pnodes (id ssid tmat logs2prob ci_ext ppos leaf arc ctxt)": [n for n in nodes if any(
+                              x.split()[0] == "H" and x.split()[1] == n.split()[0] for x in list(ra ^ mo))][:12]}
+        except Exception as ex:      # diagnostics only
+            state_diff = {"error": repr(ex)}
     used = sorted({t[3] for t in small["trans"] if t[3]})
-    c.violation({"kind": kind, "what": d2 or detail, "case": small,
+    c.violation({"kind": kind, "what": d2 or detail, "case": small, "state_difference_in_first_differing_frame": state_diff,
                  "lextree_only": m and m.get("lexonly"), "model_only": m and m.get("flatonly"),
+                 "search_model_result": m and {k: v for k, v in (m.get("search") or {}).items() if k != "Y"},
                  "dictionary": {sp: ph for b in used for sp, ph in dic[small.get("lang", "en-us")].get(b, [])},
                  "c_score": h and h["score"], "c_hyp": h and h["hyp"], "c_segments": h and h["segs"],
                  "c_exit_frame": h and h["exit_frame"], "frames": h and h["T"],
@@ -691,7 +861,8 @@ def check(c):
                       "> WORST_SCORE + 33023 AND skip-consistent transition matrices (hypotheses of C02_hmmStep_eq_ideal); outside it "
                       "only 'reported <= optimum' is required.  The beam model itself (Model/Beam.lean) is read from fsg_search.c and is "
                       "tied to it only through the equality it predicts",
-                      "3-state left-to-right topology (the shipped models); the 5-state and any-topology evaluators are not modelled"]
+                      "whole-utterance cases use the 3-state left-to-right topology of the shipped models; the 5-state evaluator is modelled (hmmStep5, C02_hmmStep5_eq_ideal) and tied by the unit correspondence only; hmm_vit_eval_anytopo is not modelled",
+                      "utterance length T >= 1 wherever a length appears (Viterbi.viterbi / Alignment use T-1 on naturals, so T = 0 reads as T = 1; the search theorems of Props/C02Search carry 0 < T explicitly and every checked case has T >= 1)"]
     if not c.lean_obligations():
         return
     binp = vlib.build_harness("h_c02")
@@ -728,6 +899,8 @@ def check(c):
     # batches never mix acoustic models
     cases.sort(key=lambda cs: (not cs["id"].startswith("corpus"), cs.get("lang", "en-us") != "en-us"))
     allok, nontrivial, nviol, nfind, lexok, nlex = True, set(), 0, 0, True, 0
+    searchok, nsearch = True, 0
+    stats["search_tie"] = {"cover_certificates_checked": 0, "cases_compared": 0, "frames_compared": 0, "cases_outside_regime": 0, "history_entries": 0, "pnodes": 0}
     B = 30
     batches = []
     for cs in cases:
@@ -750,6 +923,9 @@ def check(c):
             for k in ("wip", "pip", "lw", "silprob", "fsgusefiller", "fsgusealtpron"):
                 kv = f"{k}={case['cfg'].get(k)}"
                 stats["cfg"][kv] = stats["cfg"].get(kv, 0) + 1
+            pk = "none" if not case.get("probes") else ("before-finish" if case["probes"] == [-1] else
+                                                        ("mid-utterance+before-finish" if -1 in case["probes"] else "mid-utterance"))
+            stats.setdefault("result_queries_before_the_final_one", {})[pk] = stats.setdefault("result_queries_before_the_final_one", {}).get(pk, 0) + 1
             nn = sum(1 for t in case["trans"] if not t[3])
             stats["cfg"]["grammars_with_null_arcs"] = stats["cfg"].get("grammars_with_null_arcs", 0) + (1 if nn else 0)
             if m and "error" not in m:
@@ -759,6 +935,25 @@ def check(c):
                 if m.get("lextree") is False and kind != "lextree-mismatch":
                     lexok = False
                 stats["frames"].append(m["T"]); stats["states"].append(m["states"]); stats["edges"].append(m["edges"])
+                sr = m.get("search")
+                if sr and sr.get("cover") == "true" and sr.get("emagree") == "true":
+                    stats["search_tie"]["cover_certificates_checked"] += 1
+                if sr and "error" not in sr and m["skipcons"] and (m["minval"] is None or m["minval"] > -536870912 + 33023) \
+                        and (kind.startswith("ok") or kind in ("search-mismatch", "finding-partial")):
+                    stats["search_tie"]["cases_compared_with_beams"] = stats["search_tie"].get("cases_compared_with_beams", 0) + 1
+                    stats["search_tie"]["frames_compared_with_beams"] = stats["search_tie"].get("frames_compared_with_beams", 0) + len(sr.get("YB", []))
+                    stats["search_tie"]["partial_results_compared"] = stats["search_tie"].get("partial_results_compared", 0) + len(sr.get("partial", []))
+                    if sr.get("tablesagree"):
+                        tk = "cases_where_pruning_removed_nothing_from_the_history_table_by_beams"
+                        stats["search_tie"].setdefault(tk, {})[case["beams"]] = stats["search_tie"].setdefault(tk, {}).get(case["beams"], 0) + 1
+                    bk = "pruned_cases_by_beams"
+                    stats["search_tie"].setdefault(bk, {})[case["beams"]] = stats["search_tie"].setdefault(bk, {}).get(case["beams"], 0) + 1
+                if sr and "error" not in sr and in_regime(m) and (kind.startswith("ok") or kind == "search-mismatch"):
+                    st_ = stats["search_tie"]
+                    st_["cases_compared"] += 1; st_["frames_compared"] += len(sr["Y"])
+                    st_["history_entries"] += sr.get("entries", 0); st_["pnodes"] += sr.get("pnodes", 0)
+                elif sr is not None:
+                    stats["search_tie"]["cases_outside_regime"] += 1
                 stats["spread_max"] = max(stats["spread_max"], m["spread"])
             if kind in ("ok-equal", "ok-le") and m["opt"] is not None:
                 nontrivial.add((case["shape"], json.dumps(case["trans"]), json.dumps(case["audio"])))
@@ -773,6 +968,12 @@ def check(c):
                 if nlex < 1:
                     report(c, binp, dictfile, dic, vocab, case, kind, detail)
                 nlex += 1
+                continue
+            if kind == "search-mismatch":
+                searchok = False
+                if nsearch < 1:
+                    report(c, binp, dictfile, dic, vocab, case, kind, detail)
+                nsearch += 1
                 continue
             if kind == "finding-partial":
                 if not is_known(KEY_PARTIAL):
@@ -796,6 +997,13 @@ def check(c):
     c.oblige("structural correspondence: the unshared root-to-leaf paths of the real lextree (arc, left/right context, presented "
              "phones, per-phone ssid / tmat / entry penalty) = the HMM instances of the model's flat network, on every case",
              lexok, {"cases_compared": stats.get("lextree_compared", 0), "mismatching_cases": nlex})
+    c.oblige("token-passing correspondence: in the no-pruning regime the unpruned scoring model of fsg_search_start / fsg_search_step / "
+             "fsg_search_find_exit (SearchScore, theorem C02_unpruned_search_is_tree_dp) reproduces every frame of the real search "
+             "(bestscore, active HMMs and all their state/exit scores, word-exit and null-arc history entries per right context) and its result; "
+             "on EVERY case (any beams, inside or outside the no-pruning regime) the scoring model run WITH the search's beams (searchFrameBeam) "
+             "reproduces every frame of the real pruned search and its result, and the decidable hypotheses coverB / emAgreeB of C02_unpruned_search_is_dp_partial hold for the model's flat "
+             "network over the real lextree",
+             searchok, dict(stats["search_tie"], mismatching_cases=nsearch))
     c.oblige("oracle on the implementation: reported score = model optimum in the no-pruning regime, <= optimum otherwise, "
              "on every corpus and generated case", allok, stats["verdicts"])
 
@@ -810,6 +1018,8 @@ def check(c):
                   "network_edges": hist(stats["edges"]), "max_score_spread_vs_beam": [stats["spread_max"], 524288],
                   "no_pruning_regime_by_beams": stats.get("regime", {}),
                   "lextree_structures_compared": stats.get("lextree_compared", 0),
+                  "token_passing_tie": stats["search_tie"],
+                  "result_queries_before_the_final_one": stats.get("result_queries_before_the_final_one", {}),
                   "vocabulary_size": {k: len(v) for k, v in vocab.items()}, "acoustic_models": stats["langs"],
                   "unit_ops": stats.get("unit_ops"), "hmm_ops_also_checked_against_max_plus": stats.get("hmm_ideal_checked"),
                   "hmm_skip_flags_(0->2,1->3)": {str(k): v for k, v in stats["hmm_skip"].items()},
